@@ -86,6 +86,8 @@ type Ctx struct {
 	Workers    int
 	counters   map[string]*atomic.Int64
 	dumpf      *os.File
+	batchPanics atomic.Int64
+	reported    atomic.Int64
 }
 
 type violation struct {
@@ -248,7 +250,9 @@ func (c *Ctx) Report(f *Fail, cs any, rerun func() *Fail) {
 	if f == nil {
 		return
 	}
-	if rerun != nil {
+	if rerun != nil && c.reported.Add(1) <= 300 {
+		// beyond 300 reports the failures are systematic; re-executing each
+		// (often through an external shell) would only burn the budget
 		for i := 0; i < c.Reruns; i++ {
 			g := rerun()
 			if g == nil || g.Key != f.Key {
@@ -502,9 +506,13 @@ func RunBatch[T any](c *Ctx, size int, gen func(emit func(T)), run func([]T) []*
 						if r := recover(); r != nil {
 							// a panic in a batch: fall back to one by one
 							if os.Getenv("VERIF_DEBUG") != "" {
-								fmt.Fprintf(os.Stderr, "batch panic: %v\n", r)
+								fmt.Fprintf(os.Stderr, "batch panic: %v\n%s\n", r, debug.Stack())
 							}
 							c.Count("batch_panics", 1)
+							if c.batchPanics.Add(1) > 20 {
+								fmt.Fprintf(os.Stderr, "harness failure: too many batches panicked, last: %v\n", r)
+								os.Exit(2)
+							}
 							fs = make([]*Fail, len(batch))
 							for i, t := range batch {
 								fs[i] = one(t)
